@@ -22,7 +22,7 @@ from puresnmp.adt import (
     V3Flags,
 )
 from puresnmp.credentials import V3, Credentials
-from puresnmp.exc import NotInTimeWindow, SnmpError
+from puresnmp.exc import NotInTimeWindow, SnmpError, UnknownEngineId
 from puresnmp.pdu import GetRequest, PDUContent, Report
 from puresnmp.plugins.security import SecurityModel
 from puresnmp.transport import MESSAGE_MAX_SIZE
@@ -84,10 +84,14 @@ class AuthenticationError(USMError):
     """
 
 
-class UnknownEngine(USMError):
+class UnknownEngine(USMError, UnknownEngineId):
     """
     This error is raised when a message is processed that claims to come from
     an authoritative engine other than the one(s) this client talks to.
+
+    Like :py:class:`puresnmp.exc.UnknownEngineId` this means that the local
+    notion of the remote engine is out of sync (it may be the remote engine
+    itself telling us that it does not know the engine-id we discovered).
     """
 
 
@@ -613,6 +617,10 @@ def validate_usm_message(message: PlainMessage) -> None:
                 USMSecurityParameters.decode(
                     message.security_parameters
                 ).authoritative_engine_id.hex(),
+            )
+        if varbind.oid == ObjectIdentifier("1.3.6.1.6.3.15.1.1.4.0"):
+            raise UnknownEngineId(
+                "Error response from remote device: Unknown engine-id"
             )
         if varbind.oid in errors:
             msg = errors[varbind.oid]
